@@ -199,7 +199,9 @@ func genNodeRef(t *rapid.T, n int, label string) int {
 
 func genAny(t *rapid.T, n, pools int, selfNode int, label string) AnyDesc {
 	// typed nils: an interface that holds a nil map / slice / pointer is not a nil interface
-	kinds := []string{"nil", "nil", "int", "string", "nilmap", "nilslice", "nilptr"}
+	// intptr: a *int from the shared pool (the one Count / Other / Leaf.N use),
+	// so an interface and ordinary pointer fields can hold the same scalar pointer
+	kinds := []string{"nil", "nil", "int", "string", "nilmap", "nilslice", "nilptr", "intptr"}
 	if n > 0 {
 		kinds = append(kinds, "node", "node", "nodeslice", "nodearray", "nodeval", "attrs", "islice", "selfslice", "edgeval", "time")
 		if pools > 0 {
@@ -228,7 +230,7 @@ func genAny(t *rapid.T, n, pools int, selfNode int, label string) AnyDesc {
 		}
 	case "nodemap":
 		a.Pool = rapid.IntRange(0, pools-1).Draw(t, label+"_pool")
-	case "int", "string":
+	case "int", "string", "intptr":
 		a.Num = rapid.IntRange(0, 99).Draw(t, label+"_num")
 	}
 	return a
@@ -506,6 +508,10 @@ func (gi *graphInst) any(a AnyDesc) interface{} {
 		return (*GNode)(nil)
 	case "int":
 		return a.Num
+	case "intptr":
+		if len(gi.ints) > 0 && a.Num >= 0 {
+			return gi.ints[a.Num%len(gi.ints)]
+		}
 	case "string":
 		return fmt.Sprintf("str%d", a.Num)
 	}
@@ -1218,7 +1224,7 @@ func (l *lazySource) Value(_ context.Context, t *dials.Type) (reflect.Value, err
 func TestC03Graphs(t *testing.T) {
 	vrt.Check(t, vrt.Prop[C03Case]{
 		ID: "C03", Name: "graphs",
-		Rule: "object graphs of 0..8 nodes (in one case of twenty plus a ring of 40..1100 further nodes chained through Next) over the fixed family GNode/GLeaf/GRoot/TNode (TNode implements encoding.TextUnmarshaler and has exported pointer / map / slice fields, so it can point at itself) with arbitrary edges through struct-field pointers (one of them an exported field tagged dials:\"-\", which stacking skips but the copy must still reproduce), slices, arrays, maps, maps whose values are slices / maps shared with other fields, shared maps (also one map object held under a named and an unnamed map type) / *int, unexported fields declared before the exported references, pointers to slices / maps / pointers shared between nodes, back-references to the config root itself, and interface payloads (typed nil map / slice / pointer, *GNode, GNode by value, a struct by value with unexported fields, a time.Time, map[string]*GNode, []*GNode, [1]*GNode, []interface{}, a node's own Attrs map); " +
+		Rule: "object graphs of 0..8 nodes (in one case of twenty plus a ring of 40..1100 further nodes chained through Next) over the fixed family GNode/GLeaf/GRoot/TNode (TNode implements encoding.TextUnmarshaler and has exported pointer / map / slice fields, so it can point at itself) with arbitrary edges through struct-field pointers (one of them an exported field tagged dials:\"-\", which stacking skips but the copy must still reproduce), slices, arrays, maps, maps whose values are slices / maps shared with other fields, shared maps (also one map object held under a named and an unnamed map type) / *int, unexported fields declared before the exported references, pointers to slices / maps / pointers shared between nodes, back-references to the config root itself, and interface payloads (typed nil map / slice / pointer, *GNode, GNode by value, a struct by value with unexported fields, a time.Time, map[string]*GNode, []*GNode, [1]*GNode, []interface{}, a node's own Attrs map, a *int from the shared pool); " +
 			"copied directly by the deep copier (root *GNode or *GRoot), by Config with the graph in defaults and in one or two source values (both may set the same interface-typed field, with payloads of the same or different types), and by a watcher re-stack; oracle: terminates, reflect.DeepEqual, and the in->out map of pointer/map references in fields, elements and map values is a function with a fresh range; " +
 			"non-trivial = the graph has a cycle or a reference with in-degree >= 2; distinct = distinct case JSON",
 		Assumptions: []string{
